@@ -25,7 +25,12 @@ elements, the observable `node`, attributes outside _props):
     (same document twice, two documents) / update_from_node / update_from_other_container on populated instances:
     no mutable object in common at any depth (path reported), in-place mutation of either side invisible in
     the other;
-  * alias-mdib: entity getters and entity.update() of a ProviderMdib against the containers inside the mdib, also for
+  * "reachable from an instance" means: declared members, every other entry of __dict__, __slots__, python
+    properties and whatever the zero-argument public getters (get_retrievability(), ...; methods whose name says
+    they change something are not called) and get_actual_value(name) hand out - a memo behind a getter is state of
+    the instance; alias-sep repeats every operation with the getters of the source called BEFORE the operation;
+  * alias-mdib: working copies of the transaction getters (get_descriptor / get_state / get_context_state),
+    entity getters and entity.update() of a ProviderMdib against the containers inside the mdib, also for
     entities that are OLDER than the mdib (context states added / changed / removed, single states changed since);
   * alias-tables: the containers INSIDE a set-up mdib, for every MDIB file of tests/: after ProviderMdib.from_mdib_file /
     from_string (two mdibs from the same bytes too), after each xtra set-up method, set_location and context state
@@ -205,6 +210,7 @@ def identity_streams(ctx):
                   findings=len(r['findings']), classes=res.get('n_classes'))
     if res.get('opaque_types'):
         ctx.log(f'alias streams: objects of unknown mutability not followed: {res["opaque_types"]}')
+    ctx.cov['getters_followed'] = {'identity streams': res.get('accessors'), 'alias-tables': res_t.get('accessors')}
     ctx.sample({'stream': 'alias-ctor/alias-sep/alias-mdib', 'request': request,
                 'ctor_hist': json.dumps((res.get('ctor') or {}).get('hist'))[:600]})
 
@@ -282,7 +288,10 @@ def run(ctx):
              'construction through every constructor variant; after mk_copy / deepcopy / from_node / update_from_node / '
              'update_from_other_container / entity getter / entity.update (also of entities older than the mdib) no common '
              'mutable object at any depth; after every single in-place mutation of every reachable mutable object all other '
-             'values unchanged; alias-tables: no mutable object reachable from two containers of the tables of a provider / '
+             'values unchanged; reachable from an instance = declared members, every other __dict__ entry, __slots__, '
+             'python properties and what every zero-argument public getter returns (mutator-named methods excluded); '
+             'alias-sep runs every operation a second time after the getters of the source were called (memoised '
+             'results), alias-mdib also judges the working copies of transaction getters; alias-tables: no mutable object reachable from two containers of the tables of a provider / '
              'consumer mdib at every set-up stage, for all MDIB files of tests/',
         assumptions=['the model is the REPAIRED code (fixes/C12_parse_default, fixes/C12_mk_copy); C12_parse_refuted / '
                      'C12_mkcopy_refuted state what the unrepaired code does',
